@@ -88,6 +88,9 @@ class RefAgent:
         #: conformant choice (RFC 3412 7.1 step 3): a Report's scoped PDU carries either this engine's id or the
         #: contextEngineID / contextName of the request it answers (empty for a discovery probe)
         self.report_ctx_echo = False
+        #: a proxy / multi-context engine may put yet another (non-empty) contextEngineID into its Reports; the engine id a
+        #: client has to adopt is msgAuthoritativeEngineID (RFC 3414 section 4), never this one
+        self.report_ctx_other: Optional[bytes] = None
         #: speed of the engine clock relative to the simulator's virtual time (clock drift; 0.5 and 0.75 are exact in binary)
         self.rate = 1.0
 
@@ -263,6 +266,8 @@ class RefAgent:
         ctx_engine, ctx_name = self.engine_id, b""
         if self.report_ctx_echo and msg.get("scoped") is not None:
             ctx_engine, ctx_name = msg["scoped"]["ctx_engine"], msg["scoped"]["ctx_name"]
+        elif self.report_ctx_other:
+            ctx_engine = self.report_ctx_other
         fields = {"msg_id": msg["msg_id"], "flags": level, "user": user.name if user else b"",
                   "ctx_engine": ctx_engine, "ctx_name": ctx_name, "pdu": pdu,
                   "engine_id": self.engine_id, "boots": self.boots, "time": self.engine_time(now)}
